@@ -28,7 +28,7 @@ func init() {
 	scenario("C13", "schedule", func(r *core.Run, c core.Case) {
 		var p C13Case
 		params(c, &p)
-		for _, s := range append(append(readerStreams(maxInt(p.Level, 0)), longStreams()...), finalOpStreams()...) {
+		for _, s := range append(append(append(readerStreams(maxInt(p.Level, 0)), longStreams()...), finalOpStreams()...), walkStreams()...) {
 			if s.Name == p.Stream {
 				x := core.Replay(func(x *core.X) { c13Body(r, s, p, x) }, p.Choices)
 				_ = x
@@ -125,7 +125,8 @@ func c13Body(r *core.Run, s Stream, p C13Case, x *core.X) {
 	var final error
 	sawEOF := false
 	pan := core.Guard(func() {
-		rd, err := openReader(s.Fmt, src)
+		// a raw LZMA2 stream carries no dictionary size: the reader is given the one the stream needs
+		rd, err := openReaderDict(s.Fmt, src, maxInt(4096, int(s.DictSize)))
 		if err != nil {
 			final = err
 			trace = append(trace, "open:"+errStr(err))
@@ -252,6 +253,26 @@ func runC13(r *core.Run) {
 			if !e.Complete {
 				complete = false
 			}
+		}
+	}
+	// streams from fixed operation walks: uniform schedules and deviation bound 1
+	for _, s := range walkStreams() {
+		s := s
+		for _, b := range []int{1, 2, 3, 5, 4096} {
+			for _, f := range []int{1, 2, 3, 0} {
+				p := C13Case{Stream: s.Name, Level: level, DefBuf: b, DefFrag: f, EOFLast: f == 2}
+				core.Replay(func(x *core.X) { c13Body(r, s, p, x) }, nil)
+				totalExec++
+			}
+		}
+		p := C13Case{Stream: s.Name, Level: level, DefBuf: 4096}
+		e := &core.Explorer{Ctx: r, Name: "C13 " + s.Name, Bound: 1, Workers: r.Workers, Body: func(x *core.X) { c13Body(r, s, p, x) },
+			Stop: func() bool { return r.Expired("deviation-bounded schedules (walk streams)") }}
+		e.Run()
+		totalExec += e.Executions
+		totalPoints += e.Points
+		if !e.Complete {
+			complete = false
 		}
 	}
 	// streams ending in each kind of LZMA operation (the end of the stream is detected in different
